@@ -204,11 +204,12 @@ def replay_snippet(t, dk, sc, seed, out_mode, harness_dir, units=UNITS, what=Non
         "import numpy as np\n"
         "np.seterr(all='ignore')\n"
         "import npcatalog as C, c06_diff as D\n"
+        "try:\n    import c06_alias as A\n    A.register()\nexcept ImportError:\n    pass\n"
         f"t = [t for t in C.templates() if t.tid == {t.tid!r}][0]\n"
         f"st, detail = D.compare(t, {dk!r}, {sc!r}, {seed!r}, {out_mode!r}, {tuple(units)!r})\n"
         f"call = t.instantiate({dk!r}, {sc!r}, {seed!r})\n"
         "print('call:', t.func, '(', call.describe(), ')  status:', st, detail)\n"
-        f"bad = {what!r}\n"
+        f"bad = {(what or '').split('@')[0] or None!r}\n"
         "hit = (st == 'numpy-raises' and bad in ('numpy-raises', 'int-out-retyped')) or (st == 'differ' and (bad is None or any(d[0] == bad for d in detail)))\n"
         "assert not hit, (st, detail)\n"
     )
